@@ -869,8 +869,8 @@ class HeteroscedasticConditional(conditional.ConditionalGaussianPDF):
         #    "abc,dc->abd", self.U[None] * D_int[:, None], self.U
         # )
         Sigma_int = self.Sigma + jnp.einsum(
-            "ab,cb->ac", jnp.einsum("ab,b->ab", self.A[0,:,:self.Dk], D_int), self.A[0,:,:self.Dk]
-        )[None]
+            "ab,rb,cb->rac", self.A[0,:,:self.Dk], D_int, self.A[0,:,:self.Dk]
+        )
         Sigma_int = 0.5 * (Sigma_int + jnp.swapaxes(Sigma_int, -2, -1))
         return Sigma_int
     
@@ -1127,7 +1127,7 @@ class HeteroscedasticExpConditional(HeteroscedasticConditional):
         ln_beta = self.W[:, 0]
         exp_h = factor.LinearFactor(nu=nu, ln_beta=ln_beta)
         D_int = p_x.multiply(exp_h, update_full=True).integrate()
-        return D_int
+        return D_int.reshape((p_x.R, self.Dk))
     
     @staticmethod
     def _get_omega_dagger(p_x: pdf.GaussianPDF, W_i: Float[Array, "Dx+1"]) -> Float[Array, "R"]:
@@ -1202,7 +1202,7 @@ class HeteroscedasticCoshM1Conditional(HeteroscedasticConditional):
         + p_x.multiply(exp_h_minus, update_full=True).integrate()
         - 1.0
         )
-        return D_int
+        return D_int.reshape((p_x.R, self.Dk))
     
     @staticmethod
     def _get_omega_dagger(p_x: pdf.GaussianPDF, W_i: Float[Array, "Dx+1"]) -> Float[Array, "R"]:
@@ -1283,13 +1283,13 @@ class HeteroscedasticHeavisideConditional(HeteroscedasticConditional):
         def integrate_f_i(w_i, w0_i):
             p_h = p_x.get_density_of_linear_sum(w_i[None, None], w0_i[None, None])
             tp_h = truncated_measure.TruncatedGaussianMeasure(measure=p_h, lower_limit=0., upper_limit=jnp.inf)
-            D_i_int = tp_h.integral()[0]
+            D_i_int = tp_h.integral()
             return D_i_int
         #D_int = []
         #for i in range(self.Dk):
         #    D_int.append(integrate_f_i(w[i], w0[i]))
         #D_int = jnp.stack(D_int, axis=0)
-        D_int = vmap(integrate_f_i, in_axes=(0,0))(w, w0)
+        D_int = vmap(integrate_f_i, in_axes=(0,0))(w, w0).T
         return D_int
     
     def get_lb_log_det(self, p_x: pdf.GaussianPDF) -> Float[Array, "N"]:
@@ -1383,13 +1383,13 @@ class HeteroscedasticReLUConditional(HeteroscedasticConditional):
         def integrate_f_i(w_i, w0_i):
             p_h = p_x.get_density_of_linear_sum(w_i[None, None], w0_i[None, None])
             tp_h = truncated_measure.TruncatedGaussianMeasure(measure=p_h, lower_limit=0., upper_limit=jnp.inf)
-            D_i_int = tp_h.integrate('x')[0,0]
+            D_i_int = tp_h.integrate('x')[:,0]
             return D_i_int
         #D_int = []
         #for i in range(self.Dk):
         #    D_int.append(integrate_f_i(w[i], w0[i]))
         #D_int = jnp.stack(D_int, axis=0)
-        D_int = vmap(integrate_f_i, in_axes=(0,0))(w, w0)
+        D_int = vmap(integrate_f_i, in_axes=(0,0))(w, w0).T
         return D_int
 
     @staticmethod
